@@ -9,6 +9,7 @@ from pathlib import Path
 import z3
 
 from . import contracts as C
+from . import lib_np  # noqa: F401  (registers library models)
 from . import solve
 from .engine import Contract, Exec, Obligation, Unsupported, Verifier
 from .source import INDEX
@@ -26,7 +27,7 @@ class Session:
         # make sure every module mentioned is indexed before binding
         for t in self.contracts:
             INDEX.load(t.split(":")[0])
-        C.bind_all(self.contracts)
+        self.binding_errors = C.bind_all(self.contracts)
         self.ver = Verifier(self.contracts, self.helpers)
         self.ver.lib_used = set()
         self.ver.inlined = set()
@@ -49,9 +50,17 @@ def verify_into(ctx, files: list[str], targets: list[str] | None = None, *, time
     try:
         sess = Session(files)
     except C.BindingError as e:
-        raise CheckerError(f"contract binding failed: {e}") from e
+        # The contracts no longer fit the source (function gone, parameter renamed,
+        # loop structure changed): nothing can be proved about that code with them.
+        # Undecided, not a verdict; the bounded stand-in still runs.
+        ctx.undecided.append(Undecided(ctx.prop, "contract-binding", str(e)[:300]))
+        return {"session": None, "results": {}, "index": {}, "wall": time.time() - t0}
+    for t, why in sess.binding_errors.items():
+        ctx.undecided.append(Undecided(ctx.prop, t, f"contract no longer fits the source: {why}"[:300]))
     if targets is None:
         targets = [t for t, c in sess.contracts.items() if not c.trusted]
+    else:
+        targets = [t for t in targets if t in sess.contracts]
     tier = ctx.tier
     if timeout_ms is None:
         timeout_ms = 10_000 if tier == "quick" else 60_000
@@ -61,7 +70,10 @@ def verify_into(ctx, files: list[str], targets: list[str] | None = None, *, time
         try:
             obls, info = sess.generate(t)
         except Unsupported as e:
-            raise CheckerError(f"{t}: outside the supported subset: {e}") from e
+            # the current body of t uses a construct the executor does not model:
+            # the function is undecided (never a verdict); the bounded stand-in still runs
+            ctx.undecided.append(Undecided(ctx.prop, t, f"outside the supported subset: {e}"[:300]))
+            continue
         if not obls:
             raise CheckerError(f"{t}: zero obligations generated (vacuous)")
         fi = INDEX.func(t)
@@ -164,7 +176,7 @@ def verify_into(ctx, files: list[str], targets: list[str] | None = None, *, time
             o = index[r.oid]
             dead.add((o.fn, o.path))
     ctx.reachability += len(reach_items)
-    for t in targets:
+    for t in [t for t in targets if t in per_fn]:
         paths = {o.path for o in index.values() if o.fn == t}
         live = [p for p in paths if (t, p) not in dead]
         if not live:
